@@ -30,6 +30,7 @@ class BitStringPayloadDecoder(AbstractScalarPayloadDecoder):
 class SequenceOrSetPayloadDecoder(object):
     def __call__(self, pyObject, asn1Spec, decodeFun=None, **options):
         asn1Value = asn1Spec.clone()
+        asn1Value.clear()  # a value even if no component gets assigned
 
         componentsTypes = asn1Spec.componentType
 
@@ -43,6 +44,7 @@ class SequenceOrSetPayloadDecoder(object):
 class SequenceOfOrSetOfPayloadDecoder(object):
     def __call__(self, pyObject, asn1Spec, decodeFun=None, **options):
         asn1Value = asn1Spec.clone()
+        asn1Value.clear()  # [] is an empty value, not a schema object
 
         for pyValue in pyObject:
             asn1Value.append(decodeFun(pyValue, asn1Spec.componentType), **options)
